@@ -15,6 +15,7 @@ package bitpack
 //@ func pack1
 //@   mode bv
 //@   safety[C17]
+//@   modifies HA(b)
 //@   requires #vals >= 8
 //@   ensures[C17] #res == #b + 1
 //@   ensures[C17] forall k in 0..#b: res[k] == old(b[k])
@@ -23,6 +24,7 @@ package bitpack
 //@ func pack2
 //@   mode bv
 //@   safety[C17]
+//@   modifies HA(b)
 //@   requires #vals >= 8
 //@   ensures[C17] #res == #b + 2
 //@   ensures[C17] forall k in 0..#b: res[k] == old(b[k])
@@ -31,6 +33,7 @@ package bitpack
 //@ func pack3
 //@   mode bv
 //@   safety[C17]
+//@   modifies HA(b)
 //@   requires #vals >= 8
 //@   ensures[C17] #res == #b + 3
 //@   ensures[C17] forall k in 0..#b: res[k] == old(b[k])
@@ -39,6 +42,7 @@ package bitpack
 //@ func pack4
 //@   mode bv
 //@   safety[C17]
+//@   modifies HA(b)
 //@   requires #vals >= 8
 //@   ensures[C17] #res == #b + 4
 //@   ensures[C17] forall k in 0..#b: res[k] == old(b[k])
@@ -47,6 +51,7 @@ package bitpack
 //@ func unpack1
 //@   mode bv
 //@   safety[C17]
+//@   modifies nothing
 //@   requires #vals >= 1
 //@   ensures[C17] #res == 8
 //@   ensures[C17] res[0] == zext(8, extract(0, 0, old(vals[0])))
@@ -61,6 +66,7 @@ package bitpack
 //@ func unpack2
 //@   mode bv
 //@   safety[C17]
+//@   modifies nothing
 //@   requires #vals >= 2
 //@   ensures[C17] #res == 8
 //@   ensures[C17] res[0] == zext(8, extract(1, 0, concat(old(vals[1]), old(vals[0]))))
@@ -75,6 +81,7 @@ package bitpack
 //@ func unpack3
 //@   mode bv
 //@   safety[C17]
+//@   modifies nothing
 //@   requires #vals >= 3
 //@   ensures[C17] #res == 8
 //@   ensures[C17] res[0] == zext(8, extract(2, 0, concat(old(vals[2]), old(vals[1]), old(vals[0]))))
@@ -89,6 +96,7 @@ package bitpack
 //@ func unpack4
 //@   mode bv
 //@   safety[C17]
+//@   modifies nothing
 //@   requires #vals >= 4
 //@   ensures[C17] #res == 8
 //@   ensures[C17] res[0] == zext(8, extract(3, 0, concat(old(vals[3]), old(vals[2]), old(vals[1]), old(vals[0]))))
@@ -103,6 +111,7 @@ package bitpack
 //@ func Pack
 //@   mode bv
 //@   safety[C17]
+//@   modifies HA(b)
 //@   requires #vals >= 8
 //@   ensures[C17] width == 1 ==> #res == #b + 1
 //@   ensures[C17] width == 2 ==> #res == #b + 2
@@ -118,6 +127,7 @@ package bitpack
 //@ func Unpack
 //@   mode bv
 //@   safety[C17]
+//@   modifies nothing
 //@   requires width == 1 ==> #vals >= 1
 //@   requires width == 2 ==> #vals >= 2
 //@   requires width == 3 ==> #vals >= 3
@@ -160,6 +170,7 @@ package bitpack
 //@ func verifRoundTripA1
 //@   mode bv
 //@   safety[C17]
+//@   modifies nothing
 //@   requires #vals >= 8
 //@   requires forall e in 0..8: vals[e] < 2
 //@   ensures[C17] #res == 8
@@ -167,12 +178,14 @@ package bitpack
 //@ func verifRoundTripB1
 //@   mode bv
 //@   safety[C17]
+//@   modifies nothing
 //@   requires #group >= 1
 //@   ensures[C17] #res == 1
 //@   ensures[C17] forall k in 0..1: res[k] == old(group[k])
 //@ func verifDispatch1
 //@   mode bv
 //@   safety[C17]
+//@   modifies nothing
 //@   requires #vals >= 8
 //@   requires forall e in 0..8: vals[e] < 2
 //@   ensures[C17] #res == 8
@@ -181,6 +194,7 @@ package bitpack
 //@ func verifRoundTripA2
 //@   mode bv
 //@   safety[C17]
+//@   modifies nothing
 //@   requires #vals >= 8
 //@   requires forall e in 0..8: vals[e] < 4
 //@   ensures[C17] #res == 8
@@ -188,12 +202,14 @@ package bitpack
 //@ func verifRoundTripB2
 //@   mode bv
 //@   safety[C17]
+//@   modifies nothing
 //@   requires #group >= 2
 //@   ensures[C17] #res == 2
 //@   ensures[C17] forall k in 0..2: res[k] == old(group[k])
 //@ func verifDispatch2
 //@   mode bv
 //@   safety[C17]
+//@   modifies nothing
 //@   requires #vals >= 8
 //@   requires forall e in 0..8: vals[e] < 4
 //@   ensures[C17] #res == 8
@@ -202,6 +218,7 @@ package bitpack
 //@ func verifRoundTripA3
 //@   mode bv
 //@   safety[C17]
+//@   modifies nothing
 //@   requires #vals >= 8
 //@   requires forall e in 0..8: vals[e] < 8
 //@   ensures[C17] #res == 8
@@ -209,12 +226,14 @@ package bitpack
 //@ func verifRoundTripB3
 //@   mode bv
 //@   safety[C17]
+//@   modifies nothing
 //@   requires #group >= 3
 //@   ensures[C17] #res == 3
 //@   ensures[C17] forall k in 0..3: res[k] == old(group[k])
 //@ func verifDispatch3
 //@   mode bv
 //@   safety[C17]
+//@   modifies nothing
 //@   requires #vals >= 8
 //@   requires forall e in 0..8: vals[e] < 8
 //@   ensures[C17] #res == 8
@@ -223,6 +242,7 @@ package bitpack
 //@ func verifRoundTripA4
 //@   mode bv
 //@   safety[C17]
+//@   modifies nothing
 //@   requires #vals >= 8
 //@   requires forall e in 0..8: vals[e] < 16
 //@   ensures[C17] #res == 8
@@ -230,12 +250,14 @@ package bitpack
 //@ func verifRoundTripB4
 //@   mode bv
 //@   safety[C17]
+//@   modifies nothing
 //@   requires #group >= 4
 //@   ensures[C17] #res == 4
 //@   ensures[C17] forall k in 0..4: res[k] == old(group[k])
 //@ func verifDispatch4
 //@   mode bv
 //@   safety[C17]
+//@   modifies nothing
 //@   requires #vals >= 8
 //@   requires forall e in 0..8: vals[e] < 16
 //@   ensures[C17] #res == 8
